@@ -88,3 +88,11 @@ Ltac okp_step I :=
   | |- okp2 _ _ (match ?x with _ => _ end) => destruct x
   | |- okp2 _ _ (let '(_, _) := ?x in _) => destruct x
   end.
+
+(* along a history: P holds after every operation up to (and including) the last one before the first that
+   does not return normally *)
+Fixpoint while_ok (l : list (res out * list event * state)) (P : state -> Prop) : Prop :=
+  match l with
+  | [] => True
+  | e :: l' => match e.1.1 with Ok _ => P e.2 /\ while_ok l' P | _ => True end
+  end.
